@@ -69,12 +69,12 @@ def run_c11(case):
     prow = case.get("prow") or []
     sim = SimRNG(case["rng"], fault=None, budget_calls=200000, budget_elems=int(2e9))
     rng = np.random.default_rng(H(case["rng"], "ref") % (2 ** 32))
-    row = {v: [prow[i]] for i, (v, _) in enumerate(pspace)}
+    row = {v: [prow[i]] for i, (v, _) in enumerate(pspace) if i < len(prow)}
     law = case["law"]
     with sim:
         try:
             domain = B.build(dom)
-            params = B.params_points(pspace, [prow] if prow else [])
+            params = B.params_points(pspace, [prow] if prow else []) if case["law"] != "lhs" else None
             sim.begin_op()
             if law == "uniform":
                 M, n = case["M"], case["n"]
@@ -156,26 +156,37 @@ def run_c11(case):
                 import torchphysics as tp
                 n = case["n"]
                 s = tp.samplers.LHSSampler(domain, n_points=n)
-                one = _one(row)
-                bx, _ = G.box(dom, one)
+                rows_all = case.get("prows") or ([prow] if prow else [[]])
+                params_all = B.params_points(pspace, [r_ for r_ in rows_all if r_])
                 for rep in range(case.get("reps", 5)):
-                    A = _coords(s.sample_points(params), dom)
+                    Aall = _coords(s.sample_points(params_all), dom)
                     stats["tests"] = stats.get("tests", 0) + 1
-                    if len(A) != n:
-                        out.append(viol("C11", "lhs", "wrong-number-of-points", "", rows=len(A), n=n))
+                    if len(Aall) != n * len(rows_all):
+                        out.append(viol("C11", "lhs", "wrong-number-of-points", "", rows=len(Aall), n=n, k=len(rows_all)))
                         break
-                    for ax in range(A.shape[1]):
-                        lo, hi = bx[0, 2 * ax], bx[0, 2 * ax + 1]
-                        slab = np.clip(np.floor((A[:, ax] - lo) / (hi - lo) * n).astype(int), 0, n - 1)
-                        # points within float rounding of a slab border may land in the neighbour
-                        cnt = np.bincount(slab, minlength=n)
-                        if not (cnt == 1).all():
+                    bad = False
+                    for ri, prow_i in enumerate(rows_all):
+                        # every parameter row has its own box
+                        one = _one({v: [prow_i[i]] for i, (v, _) in enumerate(pspace)})
+                        bx, _ = G.box(dom, one)
+                        A = Aall[ri * n:(ri + 1) * n]
+                        for ax in range(A.shape[1]):
+                            lo, hi = bx[0, 2 * ax], bx[0, 2 * ax + 1]
                             frac = (A[:, ax] - lo) / (hi - lo) * n
-                            near = np.abs(frac - np.round(frac)) < 1e-3
-                            if not near.any():
-                                out.append(viol("C11", "lhs", "slab-without-exactly-one-point", "", axis=ax,
-                                                empty=int((cnt == 0).sum()), n=n))
-                                break
+                            slab = np.clip(np.floor(frac).astype(int), 0, n - 1)
+                            cnt = np.bincount(slab, minlength=n)
+                            if not (cnt == 1).all():
+                                # points within float rounding of a slab border may land in the neighbour
+                                near = np.abs(frac - np.round(frac)) < 1e-3
+                                if not near.any() or int((cnt != 1).sum()) > 2 * int(near.sum()):
+                                    out.append(viol("C11", "lhs", "slab-without-exactly-one-point", "", axis=ax,
+                                                    empty=int((cnt == 0).sum()), n=n, row=ri, k=len(rows_all)))
+                                    bad = True
+                                    break
+                        if bad:
+                            break
+                    if bad:
+                        break
             elif law == "grid":
                 n = case["n"]
                 p = domain.sample_grid(n=n, params=params)
